@@ -764,6 +764,66 @@ def probes(ctx, count):
                                  "published basis (max diff %.3g > %.3g); case %s" % (kind_, float(np.max(np.abs(got_ - ora_))), tol_, short(c)),
                                  dict(base, relation="antenna-restore", holder=kind_, amps=list(donor_amps), phases=list(donor_phases), ts=wq))
                         break
+            # (h'') traces handed out by make_noise belong to the caller: changing one in place (scale, shift, filter ...)
+            # must not change the noise of the antenna - later requests still give the same values at the same
+            # absolute times and the cosine sum of the master's published basis.  The FIRST result after the master
+            # is created / reset is probed as well as later ones.
+            if it % 2 == 0 and cls == "fft" and len(obj.freqs) and vb > 0:
+                stats["antenna-inplace"] = stats.get("antenna-inplace", 0) + 1
+                kind_ = rng.choice(["Antenna", "Antenna", "AntennaSystem"])
+                kw_ = dict(position=(0, 0, 0), freq_range=(c["fmin"], c["fmax"]), noise_rms=obj.rms, unique_noise_waveforms=max(1, int(c["uf"])))
+                if kind_ == "Antenna":
+                    holder = ant_ = pyrex.Antenna(**kw_)
+                else:
+                    holder = pyrex.AntennaSystem(pyrex.Antenna)
+                    holder.setup_antenna(**kw_)
+                    ant_ = holder.antenna
+                ta = np.array(t)
+                script = []
+                failed_ = None
+                for round_ in range(2):                      # round 1: after creation, round 2: after clear(reset_noise=True)
+                    np.random.seed((c["seed"] + round_) & 0x7fffffff)
+                    which = rng.choice([0, 0, 1])            # modify the first result, or a later one
+                    results = [holder.make_noise(ta.copy())]
+                    master = ant_._noise_master
+                    mtimes = np.array(master.times, dtype=float)
+                    msnap = Snap(master)
+                    before = np.asarray(master.with_times(ta.copy()).values).copy()
+                    if which == 1:
+                        results.append(holder.make_noise(ta.copy()))
+                    victim = results[which]
+                    op = rng.choice(["imul", "itruediv", "shift", "filter", "shift+imul"])
+                    script.append((round_, which, op))
+                    alias = victim is master or np.shares_memory(np.asarray(victim.times), np.asarray(master.times)) or \
+                        any(getattr(victim, a_, None) is getattr(master, a_, 0) for a_ in ("_functions", "_t0s", "_buffers", "_factors", "_filters"))
+                    if "imul" in op:
+                        victim *= rng.uniform(2, 5)
+                    if op == "itruediv":
+                        victim /= rng.uniform(2, 5)
+                    if "shift" in op:
+                        victim.shift(rng.randint(1, max(1, n // 2)) * dt)
+                    if op == "filter":
+                        victim.filter_frequencies(lambda f: 0.25 * np.ones(np.shape(f)), force_real=True)
+                    sft = rng.randint(-n, n)
+                    wsh = [t0 + (i + sft) * dt for i in range(n)]
+                    again = np.asarray(holder.make_noise(ta.copy()).values)
+                    vsh = dict(zip(wsh, np.asarray(holder.make_noise(np.array(wsh)).values)))
+                    d_same = float(np.max(np.abs(again - before)))
+                    d_shared = max([abs(vsh[x] - y) for x, y in zip(t, before) if x in vsh] + [0.0])
+                    cm = dict(c, times=[float(x) for x in mtimes])
+                    d_or = float(np.max(np.abs(again - cos_oracle(msnap, "fft", float(mtimes[0]), t))))
+                    moved = not np.array_equal(np.asarray(ant_._noise_master.times, dtype=float), mtimes) or ant_._noise_master is not master
+                    if alias or moved or not (d_same <= vb * 1e-12 and d_shared <= vb * 1e-12 and d_or <= lattice_tol(cm, msnap, list(t))):
+                        failed_ = ("%s.make_noise: after the caller changed %s returned trace in place (%s)%s, the antenna's noise is no longer the same function of "
+                                   "absolute time: identical window differs by %.3g, shared times of a shifted window by %.3g, cosine sum of the master's published basis by "
+                                   "%.3g (scale %.3g)%s%s" % (kind_, "the FIRST" if which == 0 else "a later", op, " after a noise reset" if round_ else "", d_same, d_shared, d_or, vb,
+                                                             "; the returned trace shares state with _noise_master" if alias else "",
+                                                             "; the master's times array was moved" if moved else ""))
+                        break
+                    ant_.clear(reset_noise=True)
+                if failed_:
+                    lim.fail("antenna-inplace", "probe:%s:%s-returned-trace-modified" % (tag, kind_), failed_ + "; case %s" % short(c),
+                             dict(base, relation="antenna-inplace", holder=kind_, script=script))
             # (h) Antenna.make_noise: one master, with_times for every request
             if it % 4 == 0 and cls == "fft":
                 ant = pyrex.Antenna(position=(0, 0, 0), freq_range=(c["fmin"], c["fmax"]), noise_rms=obj.rms, unique_noise_waveforms=max(1, int(c["uf"])))
@@ -868,6 +928,48 @@ def replay(ctx, obj):
         np.asarray(o.values)
         assign(o, obj["assign"])
         print("history: evaluate, then assign %s" % describe(obj["assign"]))
+    elif obj.get("relation") == "antenna-inplace":
+        import pyrex
+        kw_ = dict(position=(0, 0, 0), freq_range=(c["fmin"], c["fmax"]), noise_rms=o.rms, unique_noise_waveforms=max(1, int(c["uf"])))
+        if obj.get("holder") == "Antenna":
+            holder = ant_ = pyrex.Antenna(**kw_)
+        else:
+            holder = pyrex.AntennaSystem(pyrex.Antenna)
+            holder.setup_antenna(**kw_)
+            ant_ = holder.antenna
+        ta = np.array(c["times"])
+        dt_ = c["times"][1] - c["times"][0]
+        rc = 0
+        for round_, which, op in obj["script"]:
+            np.random.seed((c["seed"] + round_) & 0x7fffffff)
+            results = [holder.make_noise(ta.copy())]
+            master = ant_._noise_master
+            msnap, mt0 = Snap(master), float(master.times[0])
+            before = np.asarray(master.with_times(ta.copy()).values).copy()
+            if which == 1:
+                results.append(holder.make_noise(ta.copy()))
+            victim = results[which]
+            print("round %d (%s): the %s make_noise result is the master object itself: %s; shares its times array: %s"
+                  % (round_ + 1, "after clear(reset_noise=True)" if round_ else "after creation", "first" if which == 0 else "second", victim is master,
+                     np.shares_memory(np.asarray(victim.times), np.asarray(master.times))))
+            if "imul" in op:
+                victim *= 3.0
+            if op == "itruediv":
+                victim /= 3.0
+            if "shift" in op:
+                victim.shift(2 * dt_)
+            if op == "filter":
+                victim.filter_frequencies(lambda f: 0.25 * np.ones(np.shape(f)), force_real=True)
+            again = np.asarray(holder.make_noise(ta.copy()).values)
+            ora_ = cos_oracle(msnap, "fft", mt0, c["times"])
+            print("  in-place %s on the returned trace; make_noise over the same times before:" % op, before[:5])
+            print("  ... and after                                                        :", again[:5])
+            print("  cosine sum of the master's published basis                           :", ora_[:5])
+            bad_ = float(np.max(np.abs(again - before))) > vbound(msnap) * 1e-12
+            print("  -> %s" % ("DISAGREE" if bad_ else "AGREE"))
+            rc = rc or (1 if bad_ else 0)
+            ant_.clear(reset_noise=True)
+        return rc
     elif obj.get("relation") == "antenna-restore":
         import pyrex
         kw_ = dict(position=(0, 0, 0), freq_range=(c["fmin"], c["fmax"]), noise_rms=o.rms, unique_noise_waveforms=max(1, int(c["uf"])))
